@@ -4,6 +4,7 @@ import (
 	"fmt"
 	"go/types"
 	"strings"
+	"sync"
 
 	"golang.org/x/tools/go/ssa"
 )
@@ -110,9 +111,13 @@ type Leaf struct {
 }
 
 var leafCache = map[types.Type][]Leaf{}
+var leafMu sync.Mutex
 
 func leavesOf(t types.Type) []Leaf {
-	if l, ok := leafCache[t]; ok {
+	leafMu.Lock()
+	l, ok := leafCache[t]
+	leafMu.Unlock()
+	if ok {
 		return l
 	}
 	var out []Leaf
@@ -172,7 +177,9 @@ func leavesOf(t types.Type) []Leaf {
 	default:
 		panic(oos("unsupported type %s (%T)", t, u))
 	}
+	leafMu.Lock()
 	leafCache[t] = out
+	leafMu.Unlock()
 	return out
 }
 
